@@ -163,6 +163,28 @@ EXPLANATION += ("  DOWNSTREAM CLAUSE (gap round): Model/Downstream.v maps downst
                 "selection on the implementation's scores, compared in the pipeline kind with what calculate_scores.main / "
                 "select_next_plate.main wrote. ")
 
+RULE += ("  grid (ComboGridFactorModel, the third shipped BayesianModel subclass: both screens trained through subset_observed + "
+         "add_observations, the six training arrays compared bit for bit between the runs, with the per-row documentation "
+         "(sample id, drug ids with single agents in slot 1, clip(y, 0, 1)) and (sample id, y) with the model; whole screen handed "
+         "over; _add_observations directly; the observed rows in pieces; a negative / NaN / -inf / edge value planted on an observed "
+         "row); view (every public array attribute of subset_observed() on both screens, single_treatment_effects with the model).")
+THEOREMS.update({
+    "C04_model_is_source_grid_add_observations": "the translation of the whole method ComboGridFactorModel._add_observations (>= 0 check, unpack_data(use_mask=True) as one primitive = row-wise over the rows with mask by ANY per-row function of sample id and treatment ids, six np.concatenate, np.clip(observations[mask], 0.0, 1.0)) equals the model grid_inner on the object holding any training entries",
+    "C04_model_is_source_grid_add": "translated add_observations around it = grid_add",
+    "C04_train_noninterference_grid": "two row lists that differ only in masked values give equal grid-model training arrays",
+    "C04_trained_exactly_once_grid": "grid model: one entry per observed row in order = (its unpacked ids / log concentrations, clip(y, 0, 1)); accepted whenever no observed value is negative or NaN",
+    "C04_refuses_grid": "grid model: a masked row => Err 1; a negative or NaN observation => Err",
+    "C04_handed_view_single_effects_refuted": "AS CODED the single_treatment_effects attribute of subset_observed() depends on a masked value (witness: observed single-agent well 0.5, masked replicate 0.5 / 1 -> 0.5 / 0.75)",
+    "C04_handed_view_single_effects_repaired": "computed from the observed rows only the attribute is equal for screens that differ only behind the mask",
+})
+EXPLANATION += ("  ComboGridFactorModel is variational, i.e. outside the quantifier's `every shipped MCMC model`, but the statement says `each "
+                "shipped model` and it is a BayesianModel subclass selectable with --model: its _add_observations is linked "
+                "(C04_GRID_ADD -> Generated/SrcTrainGrid.v; TRUSTED primitive: grid_helper.unpack_data(use_mask=True) is row-wise over "
+                "the rows with mask and reads a row's sample id and treatment names / doses only - checked per row on the implementation "
+                "by the grid kind) and the three clauses are proved and run for it; it satisfies them today.  HANDED VIEW: the rows of "
+                "subset_observed() are identical, its lazily computed attribute single_treatment_effects is not (known finding "
+                "handed-view-single_treatment_effects; no shipped model reads it, so nothing downstream differs). ")
+
 SDC = "sdc"
 INT = "interaction"
 SPECIALS = ["nan", "inf", "-inf"]
@@ -727,6 +749,21 @@ def gen(rng, tier):
         cfg["policy"] = rng.choice([1, 1, 2, 3])
         cfg["batch"] = _hidden_batch(rng, sd)
         yield dict(kind="rel", model=rng.choice([SDC, INT]), screen=sd, cfg=cfg)
+    # the third shipped BayesianModel subclass, ComboGridFactorModel (variational): relational training, refusal, pieces
+    for i in range(60 if q else 500):
+        sd = gen_structured(rng, tier) if rng.random() < 0.8 else gen_unstructured(rng, tier)
+        mode = rng.choice(["rel", "rel", "refuse", "whole"])
+        planted = None
+        if mode == "refuse":
+            cand = [j for j, r in enumerate(sd["rows"]) if r["m"]] or [0]
+            planted = rng.choice([-0.5, -3.0, -1e-300, -5e-324, "nan", "nan", "-inf", -0.0, "inf", 1e300, 2.0])
+            sd["rows"][rng.choice(cand)]["o"] = planted
+        yield dict(kind="grid", mode=mode, screen=sd, planted=planted)
+    # every public array attribute of the object handed to the model (screen.subset_observed()) and of the plates handed to the
+    # scorer, on both screens
+    for i in range(30 if q else 300):
+        sd = gen_structured(rng, tier, hidden_single=rng.random() < 0.6)
+        yield dict(kind="view", screen=sd)
     # the four command-line steps one after the other on both screens: train_model.main -> calculate_distance_matrix.main
     # (1..3 chunks) -> calculate_scores.main (1..3 chunks) -> select_next_plate.main (no policy / KPerSamplePlatePolicy)
     for i in range(24 if q else 200):
@@ -862,6 +899,10 @@ def run(desc):
         import c18_args
         return c18_args.run_case(desc)
     kind = desc["kind"]
+    if kind == "grid":
+        return run_grid(desc)
+    if kind == "view":
+        return run_view(desc)
     model = desc["model"]
     flags = impl_flags()
     repaired = [True, True, True]
@@ -1070,6 +1111,223 @@ def run(desc):
         return dict(wire=[req(model, 2, ra, arity, flags)], impl=[ia], pred=None,
                     features=feats + (["masked-rows-present"] if n_masked else []), cmp=cmpf)
     raise ValueError(kind)
+
+
+# --------------------------------------------------------------------------- the handed view
+
+VIEW_ATTRS = ["size", "sample_ids", "plate_ids", "treatment_ids", "sample_names", "plate_names", "treatment_names", "treatment_doses",
+              "observation_mask", "observations", "single_treatment_effects"]
+
+
+def _attr_bits(obj, name):
+    with warnings.catch_warnings():
+        warnings.simplefilter("ignore")
+        try:
+            with quiet_logs():
+                v = getattr(obj, name)
+        except Exception as e:  # noqa
+            return "raised %s" % type(e).__name__
+    if v is None:
+        return "None"
+    a = np.asarray(v)
+    if a.dtype.kind == "f":
+        return repr((a.shape, [fhex(x) for x in a.ravel().tolist()]))
+    return repr((a.shape, a.ravel().tolist()))
+
+
+def run_view(desc):
+    """'the data handed to the model': every public array attribute of subset_observed() - the object train_model.main hands to
+    add_observations - must be the same for the two screens; the same for the observed part of what the scorer is handed."""
+    sd = desc["screen"]
+    sa = impl_call(screenlib.build, concrete(sd, False))
+    if isinstance(sa, ImplError):
+        return dict(wire=None, impl=sa, pred=None, features=["trivial", "screen-rejected"])
+    sb = screenlib.build(concrete(sd, True))
+    va, vb = sa.subset_observed(), sb.subset_observed()
+    n_masked = int((~sa.observation_mask).sum())
+    feats = ["view"] + row_features(sa) + repl_features(sd)
+    pred = None
+    if (va is None) != (vb is None):
+        pred = "handed-view-presence: subset_observed() is None for one screen only"
+    elif va is not None:
+        diffs = [a for a in VIEW_ATTRS if _attr_bits(va, a) != _attr_bits(vb, a)]
+        others = [a for a in diffs if a != "single_treatment_effects"]
+        if others:
+            pred = "handed-view-%s: attribute %s of subset_observed() differs between the two screens" % (others[0], others[0])
+        elif diffs:
+            pred = ("handed-view-single_treatment_effects: subset_observed().single_treatment_effects differs between the two screens "
+                    "(%s / %s): the parent's table is computed from all rows, masked wells included" % (
+                        _attr_bits(va, diffs[0])[:70], _attr_bits(vb, diffs[0])[:70]))
+            feats.append("view-single-effects-differ")
+    ra = wire_rows(sa)
+    ste = None
+    if va is not None:
+        with warnings.catch_warnings():
+            warnings.simplefilter("ignore")
+            with quiet_logs():
+                t = va.single_treatment_effects
+        ste = None if t is None else [[float(x) for x in row] for row in np.asarray(t).tolist()]
+    wire = [[6, sd["arity"], ra], [2, ra, wire_rows(sb)]]
+
+    def cmpf(m, i):
+        if isinstance(m, str):
+            return "model driver failure: " + m
+        if va is None:
+            return None
+        coded = m[0][0]
+        if coded == []:
+            return None if i is None else "single_treatment_effects: model None (KeyError), implementation returned a table"
+        if i is None:
+            return "single_treatment_effects: implementation None, model returned a table"
+        tab = coded[0]
+        if len(tab) != len(i):
+            return "single_treatment_effects: %d rows in the model, %d in the implementation" % (len(tab), len(i))
+        for k, (a, b) in enumerate(zip(tab, i)):
+            if len(a) != len(b) or not all(oval_close(x, y, 1e-12) for x, y in zip(a, b)):
+                return "single_treatment_effects row %d: model %s impl %s" % (k, a, b)
+        if m[1][0] != 1:
+            return "model: downstream_input differs between the two screens"
+        return None
+    return dict(wire=wire, impl=ste, pred=pred, features=feats + (["trivial"] if n_masked == 0 or va is None else []), cmp=cmpf)
+
+
+# --------------------------------------------------------------------------- ComboGridFactorModel
+
+GRID = "grid"
+
+
+def grid_model(screen):
+    from batchie.data import ExperimentSpace
+    from batchie.models.grid_combo import ComboGridFactorModel
+    return ComboGridFactorModel(experiment_space=ExperimentSpace.from_screen(screen), n_unique_samples=int(screen.n_unique_samples),
+                                unique_drug_names=np.unique(screen.treatment_names), log_conc_range=(-3.0, 3.0), n_grid=4,
+                                n_embedding_dimensions=2, n_sigma_embedding_dimensions=2)
+
+
+def grid_training(m):
+    cols = [m.sample_ids, m.drug_ids_1, m.drug_ids_2, m.log_concs_1, m.log_concs_2, m.y]
+    n = m.n_obs()
+    if any(len(c) != n for c in cols):
+        raise AssertionError("grid training arrays of different lengths")
+    return [[int(a), int(b), int(c), float(d), float(e), float(y)] for a, b, c, d, e, y in zip(*cols)]
+
+
+def grid_result(screen, via):
+    def go():
+        m = grid_model(screen)
+        feed(m, screen, via)
+        return grid_training(m)
+    return impl_call(go)
+
+
+def grid_bits(res):
+    return "raised %s" % res.cls if isinstance(res, ImplError) else repr([[a, b, c, fhex(d), fhex(e), fhex(y)] for a, b, c, d, e, y in res])
+
+
+def grid_doc_rows(screen, m):
+    """what the class documents per observed row, computed here row by row: (sample id, drug id 1, drug id 2, clip(y, 0, 1)); a
+    treatment is the control when it is named so or its dose has no finite log10 > -inf; single agents sit in slot 1"""
+    out = []
+    idx = dict(m.drugname2idx)
+    for i in range(screen.size):
+        if not bool(screen.observation_mask[i]):
+            continue
+        ids = []
+        for nm, dose in zip(screen.treatment_names[i][:2], screen.treatment_doses[i][:2]):
+            ctrl = (nm == screen.control_treatment_name) or not (float(dose) > 0)
+            ids.append(-1 if ctrl else int(idx[nm]))
+        if ids[0] < 0:
+            ids = [ids[1], -1]
+        o = float(screen.observations[i])
+        out.append((int(screen.sample_ids[i]), ids[0], ids[1], min(max(o, 0.0), 1.0)))
+    return out
+
+
+def run_grid(desc):
+    sd, mode = desc["screen"], desc["mode"]
+    sa = impl_call(screenlib.build, concrete(sd, False))
+    if isinstance(sa, ImplError):
+        return dict(wire=None, impl=sa, pred=None, features=["trivial", "screen-rejected"])
+    arity = sd["arity"]
+    feats = ["grid", "grid-" + mode] + row_features(sa) + (["arity-%d" % arity] if arity != 2 else [])
+    n_masked = int((~sa.observation_mask).sum())
+    n_obs = int(sa.observation_mask.sum())
+    sb = screenlib.build(concrete(sd, True))
+    ra, rb = wire_rows(sa), wire_rows(sb)
+    ia, ib = grid_result(sa, 1), grid_result(sb, 1)
+    iw = grid_result(sa, 0)
+    ii = grid_result(sa, 2)
+    pred = None
+    if grid_bits(ia) != grid_bits(ib):
+        pred = "noninterference-training-data: the grid model's training arrays differ between the two screens"
+    if pred is None and n_masked > 0 and not isinstance(iw, ImplError):
+        pred = "grid-accepts-masked-rows: add_observations accepted a screen with %d masked rows" % n_masked
+    obs = [o for _, _, o in observed_rows(sa)]
+    neg, nan = has_bad(obs)
+    raised = isinstance(ia, ImplError)
+    if pred is None and (neg or nan) and not raised:
+        pred = "grid-accepts-%s: a %s observation was accepted silently" % (("negative", "negative") if neg else ("nan", "NaN"))
+    if pred is None and not (neg or nan) and arity == 2:
+        if raised:
+            pred = "grid-refuses-valid-input: %s on observed rows without negative / NaN values" % ia.cls
+        else:
+            try:
+                doc = grid_doc_rows(sa, grid_model(sa))
+            except Exception as e:  # noqa
+                doc = None
+            got = [(t[0], t[1], t[2], t[5]) for t in ia]
+            if doc is not None and got != doc:
+                key = lambda x: tuple(x)
+                pred = ("grid-training-order-differs: same rows, different order" if sorted(got, key=key) == sorted(doc, key=key)
+                        else "grid-training-rows-differ: %d rows trained, %d observed; first difference %s" % (
+                            len(got), len(doc), next(((g, d) for g, d in zip(got, doc) if g != d), None)))
+    if pred is None and not raised and n_obs >= 2:
+        ic = grid_result(sa, 3)
+        feats.append("fed-in-pieces")
+        if grid_bits(ic) != grid_bits(ia):
+            pred = "grid-piecewise-training-differs: the observed experiments handed over in consecutive pieces give another training state than in one call"
+    p = desc.get("planted")
+    if p is not None:
+        v = fv(p)
+        feats.append("planted-nan" if math.isnan(v) else "planted-negative" if v < 0 else "planted-edge")
+    feats += repl_features(sd) + (["trivial"] if (n_masked == 0 or n_obs == 0) and p is None else [])
+    wire = [[5, 1, ra], [5, 1, rb], [5, 0, ra], [5, 2, ra], [2, ra, rb]]
+    impl = [ia, ib, iw, ii, view_of(sa)]
+
+    def one(m, i, what):
+        ierr = isinstance(i, ImplError)
+        if common.is_err(m):
+            if not ierr:
+                return "%s: model refuses (tag %s), implementation accepted" % (what, m[1])
+            if m[1] == 1 and "masked" not in i.msg:
+                return "%s: model says masked-row refusal, implementation raised %r" % (what, i)
+            if m[1] == 2 and not (i.cls == "ValueError" and "non-negative" in i.msg):
+                return "%s: model says negative / NaN refusal, implementation raised %r" % (what, i)
+            return None
+        if not common.is_ok(m):
+            return "%s: model output is not a result: %s" % (what, common.short(m))
+        if ierr:
+            return None if (arity != 2 or i.cls == "KeyError") else "%s: implementation raised %r, model returned a value" % (what, i)
+        if len(m[1]) != len(i):
+            return "%s: %d training rows in the model, %d in the implementation" % (what, len(m[1]), len(i))
+        for k, (a, b) in enumerate(zip(m[1], i)):
+            if a[0] != b[0]:
+                return "%s: training row %d sample id: model %s impl %s" % (what, k, a[0], b[0])
+            if not oval_close(a[1], b[5], 0.0):
+                return "%s: training row %d y: model %s impl %r" % (what, k, a[1], b[5])
+        return None
+
+    def cmpf(m, i):
+        if isinstance(m, str):
+            return "model driver failure: " + m
+        for k, what in enumerate(["grid train A", "grid train B", "grid add_observations(whole screen)", "grid _add_observations"]):
+            d = one(m[k], i[k], what)
+            if d:
+                return d
+        if m[4][0] != 1:
+            return "model: downstream_input differs between the two screens"
+        return None
+    return dict(wire=wire, impl=impl, pred=pred, features=feats, cmp=cmpf)
 
 
 def cli_run(model, screen, seed):
